@@ -1107,7 +1107,7 @@ func (f *frame) doSlice(x *ssa.Slice) Value {
 			if (lo <= 0) && x.High == nil {
 				return c
 			}
-			panic(engineErr("slicing an atom byte slice at " + m.pos(x.Pos())))
+			return m.subAtom(c, lo, hi, x.Pos())
 		}
 		if lo < 0 {
 			lo = 0
@@ -1148,6 +1148,37 @@ func (f *frame) doSlice(x *ssa.Slice) Value {
 		return normStr(Str{isArr: true, arr: bs[lo:hi]})
 	}
 	panic(engineErr("slice of unsupported operand"))
+}
+
+// subAtom: a[lo:hi] of an atom byte slice with concrete bounds is again an atom whose label is an uninterpreted
+// function of (a, lo, hi) (memoised per path); out-of-range bounds panic as in Go.
+func (m *M) subAtom(c Slice, lo, hi int, pos token.Pos) Value {
+	if lo < 0 {
+		lo = 0
+	}
+	if hi >= 0 {
+		if lo > hi {
+			panic(goPanic{msg: "slice bounds out of range", pos: m.pos(pos)})
+		}
+		if m.branch(Bool{t: fmt.Sprintf("(bvult %s (_ bv%d 64))", c.lenT, hi)}) {
+			panic(goPanic{msg: "slice bounds out of range", pos: m.pos(pos)})
+		}
+	} else if m.branch(Bool{t: fmt.Sprintf("(bvult %s (_ bv%d 64))", c.lenT, lo)}) {
+		panic(goPanic{msg: "slice bounds out of range", pos: m.pos(pos)})
+	}
+	key := fmt.Sprintf("sub(%s,%s,%d,%d)", c.lenT, c.labT, lo, hi)
+	if v, ok := m.lazyMemo[key]; ok {
+		return v
+	}
+	n := m.seq("sub")
+	r := Slice{abs: true, labT: m.sym(fmt.Sprintf("sub%d.lab", n), "(_ BitVec 64)")}
+	if hi >= 0 {
+		r.lenT = fmt.Sprintf("(_ bv%d 64)", hi-lo)
+	} else {
+		r.lenT = nameTerm("(_ BitVec 64)", fmt.Sprintf("(bvsub %s (_ bv%d 64))", c.lenT, lo))
+	}
+	m.lazyMemo[key] = r
+	return r
 }
 
 // normStr turns an array-form string whose bytes are all concrete into a concrete string.
@@ -1349,6 +1380,18 @@ func (f *frame) builtin(name string, args []Value, c *ssa.CallCommon, pos token.
 			return nil
 		}
 		mo := mp.obj.v.(*MapObj)
+		if mo.lazyGen != nil {
+			// deleting a key nobody has looked at yet observes nothing: it is simply absent from now on
+			if k := m.force(args[1]); isConcKey(k) {
+				for i, u := range mo.universe {
+					if !mo.asked[i] && isConcKey(u) {
+						if b := m.valEqSafe(u, k); b.conc && b.v {
+							mo.asked[i] = true
+						}
+					}
+				}
+			}
+		}
 		if i := m.mapFind(mo, args[1]); i >= 0 {
 			mo.keys = append(append([]Value{}, mo.keys[:i]...), mo.keys[i+1:]...)
 			mo.vals = append(append([]Value{}, mo.vals[:i]...), mo.vals[i+1:]...)
